@@ -354,6 +354,7 @@ class Evaluator:
         self.decisions = {}
         self.effects = []
         self.store = {}
+        self.assign_log = []
         self.inferred = {}
         self.invoked = set()
         self.visited = set()
@@ -1047,6 +1048,7 @@ class Evaluator:
     def assign(self, target, v, env):
         if target["k"] == "Path" and len(target["segs"]) == 1:
             env[target["segs"][0]] = v
+            self.assign_log.append((target["segs"][0], v))
             self.effects.append(("assign", target["segs"][0], vkey(v)))
             return
         if target["k"] == "Field":
@@ -1088,13 +1090,7 @@ class Evaluator:
         return StructV(name, fields, rest)
 
     def e_Block(self, e, env):
-        inner = dict(env)
-        v = self.eval_block(e, inner)
-        # write back mutated outer bindings
-        for k2 in env:
-            if k2 in self._last_env and self._last_env[k2] is not env[k2]:
-                pass
-        return v
+        return self._branch(e, env, env)
 
     def e_If(self, e, env):
         self.visited.add(("if", e["line"], e["col"]))
@@ -1114,15 +1110,17 @@ class Evaluator:
         return UNIT
 
     def _branch(self, b, env, outer):
-        if b["k"] == "Block":
-            inner = dict(env)
-            v = self.eval_block(b, inner)
-            # propagate assignments to variables already present in the outer env
-            for k2 in list(outer.keys()):
-                if k2 in self._last_env and self._last_env[k2] is not outer[k2]:
-                    outer[k2] = self._last_env[k2]
-            return v
-        return self.eval(b, env)
+        mark = len(self.assign_log)
+        try:
+            if b["k"] == "Block":
+                inner = dict(env)
+                return self.eval_block(b, inner)
+            return self.eval(b, env)
+        finally:
+            # propagate explicit assignments (not shadowing bindings) to variables of the outer env
+            for name, val in self.assign_log[mark:]:
+                if name in outer:
+                    outer[name] = val
 
     def e_Match(self, e, env):
         self.visited.add(("match", e["line"], e["col"]))
@@ -1134,7 +1132,7 @@ class Evaluator:
                 if "guard" in a and not self.truth(self.eval(a["guard"], env2)):
                     continue
                 self.last_arm = a
-                return self._branch(a["body"], env2, env) if a["body"]["k"] == "Block" else self.eval(a["body"], env2)
+                return self._branch(a["body"], env2, env)
         raise Unsupported("no arm matched " + vkey(v))
 
     def resolve_str(self, v, pats):
@@ -1338,13 +1336,14 @@ class Evaluator:
         else:
             enter = self.truth(self.eval(e["cond"], env2))
         if enter:
+            mark = len(self.assign_log)
             try:
                 self.eval_block(e["body"], env2)
             except (ContinueEx, BreakEx):
                 pass
-            for k2 in list(env.keys()):
-                if k2 in self._last_env and self._last_env[k2] is not env[k2]:
-                    env[k2] = SymObj(f"loop({k2})", ("named", "?"))
+            for name, _v in self.assign_log[mark:]:
+                if name in env:
+                    env[name] = SymObj(f"loop({name})", ("named", "?"))
         return UNIT
 
     def e_For(self, e, env):
@@ -1358,13 +1357,14 @@ class Evaluator:
         elem = SymObj("elem(" + vkey(it) + ")", it.ty[1] if isinstance(it, SymObj) and it.ty[0] in ("vec", "iter") and len(it.ty) > 1 and isinstance(it.ty[1], tuple) else ("named", "?"))
         self.bind(e["pat"], elem, env2)
         self.effects.append(("for", vkey(it)))
+        mark = len(self.assign_log)
         try:
             self.eval_block(e["body"], env2)
         except (ContinueEx, BreakEx):
             pass
-        for k2 in list(env.keys()):
-            if k2 in self._last_env and self._last_env[k2] is not env[k2]:
-                env[k2] = SymObj(f"loop({k2})", ("named", "?"))
+        for name, _v in self.assign_log[mark:]:
+            if name in env:
+                env[name] = SymObj(f"loop({name})", ("named", "?"))
         return UNIT
 
 
@@ -1421,6 +1421,7 @@ def explore(make_eval, run, preset=None, limit=20000, constraint=None):
         ev.last_arm = None
         ev.effects = []
         ev.store = {}
+        ev.assign_log = []
         ev.inferred = {}
         ev.visited = set()
         ev.summaries = set()
@@ -1469,6 +1470,7 @@ def explore_parallel(make_eval, run, preset=None, limit=200000, constraint=None,
         ev.last_arm = None
         ev.effects = []
         ev.store = {}
+        ev.assign_log = []
         ev.inferred = {}
         ev.visited = set()
         ev.summaries = set()
